@@ -84,7 +84,7 @@ func (d *decoder) ws() {
 func isDigit(b byte) bool { return '0' <= b && b <= '9' }
 
 func (d *decoder) value(depth int) (any, error) {
-	if depth > 64 {
+	if depth > 1000 {
 		return nil, errors.New("too deep")
 	}
 	if d.i >= len(d.s) {
